@@ -43,6 +43,18 @@ def fam_funcs():
 
 
 NMAX = 16
+# spans [a, b] of the decimal grid k/100 on which the textbook affine map a + (b - a) * t leaves the span at t = 1 in
+# binary64 (a rounding tie, e.g. 0.3 + (0.9 - 0.3) > 0.9): 144 of the 5050 pairs
+OVERSHOOT = [(i, j) for i in range(0, 101) for j in range(i + 1, 101) if i / 100 + (j / 100 - i / 100) > j / 100]
+
+
+def decimal_inner(rng, count):
+    """sorted interior knots k/100; every second time one adjacent pair is an OVERSHOOT span"""
+    if rng.random() < 0.5 and count >= 2:
+        i, j = rng.choice([(a, b) for a, b in OVERSHOOT if a >= 1 and b <= 99])
+        rest = [k for k in range(1, 100) if k < i or k > j]
+        return sorted([i, j] + rng.sample(rest, min(count - 2, len(rest))))
+    return sorted(rng.sample(range(1, 100), count))
 
 
 def gen_case(rng, idx, tier):
@@ -76,6 +88,15 @@ def gen_case(rng, idx, tier):
         nt = rng.choice(["frac", "frac", "float", "int"]) if all(F(k).denominator == 1 for k in cur["U"]) else rng.choice(["frac", "frac", "float"])
         d = cv.enc_curve(cur, nt)
         d.update(kind="scalar", method=rng.choice([None, None, "closed", "open", "cheby", "gauss"]), extra=rng.choice([0, 0, 1, 3]))
+        if rng.random() < 0.2:
+            # float knots on the decimal grid k/100 with many spans and the rules whose end nodes are 0 and 1: the affine
+            # map of a rule node onto a span must not leave the span by rounding (0.3 + (0.9 - 0.3) > 0.9 in binary64)
+            pd = rng.randint(1, 3)
+            inner = decimal_inner(rng, rng.randint(3, 7))
+            Ud = [F(0)] * (pd + 1) + [F(k, 100) for k in inner] + [F(1)] * (pd + 1)
+            nd = len(Ud) - pd - 1
+            d = cv.enc_curve({"U": Ud, "P": gen.points(rng, nd, rng.choice([0, 0, 2])), "W": None}, "float")
+            d.update(kind="scalar", method=rng.choice(["closed", "closed", "cheby", None]), extra=rng.choice([0, 1]))
         return d
     if r < 9:
         U = gen.kv(rng, nintmax=3)
@@ -86,6 +107,10 @@ def gen_case(rng, idx, tier):
     nseg = rng.randint(1, 8)
     dim = rng.choice([2, 3])
     U = gen.kv(rng, p=1, nint=nseg - 1, maxmult=1)
+    if rng.random() < 0.3:
+        inner = decimal_inner(rng, nseg - 1)
+        U = [F(0), F(0)] + [F(k, 100) for k in inner] + [F(1), F(1)]
+        return {"kind": "lenght", "U": lib.enc(U), "P": lib.enc(gen.points(rng, nseg + 1, dim)), "numtype": "float", "method": rng.choice(["closed", "closed", None])}
     return {"kind": "lenght", "U": lib.enc(U), "P": lib.enc(gen.points(rng, nseg + 1, dim)), "numtype": rng.choice(["frac", "float"]),
             "method": rng.choice([None, "closed", "open", "cheby", "gauss"])}
 
